@@ -110,7 +110,8 @@ def gen_case(rng, i, tier):
         "dims": dims,
         "extra": extra,
         "data": {"kind": "hostile" if rng.random() < 0.12 else "quarter", "seed": rng.getrandbits(31),
-                 "dtype": "float32" if rng.random() < 0.08 else "float64"},
+                 "dtype": "float32" if rng.random() < 0.08 else "float64",
+                 "memory": rng.choice(["C"] * 6 + ["F", "strided", "readonly"])},
         "call": call,
         "name": rng.choice(["v", "temp", None]),
     }
@@ -132,6 +133,16 @@ def make_da(desc, ds):
     data = gen.make_data(desc["data"]["kind"], desc["data"]["seed"], shape)
     if desc["data"].get("dtype") == "float32" and desc["data"]["kind"] == "quarter":
         data = data.astype("float32")  # quarter-integers and all their sums/halves are exact in float32 too
+    layout = desc["data"].get("memory", "C")
+    if layout == "F":
+        data = np.asfortranarray(data)
+    elif layout == "strided" and data.ndim:
+        big = np.repeat(data, 2, axis=-1)
+        big[..., 1::2] = -999.0  # poison between the real values: a stride mistake would read it
+        data = big[..., ::2]
+    elif layout == "readonly":
+        data = data.copy()
+        data.setflags(write=False)  # operations never need to write into their input
     return xr.DataArray(data, dims=desc["dims"], name=desc.get("name"))
 
 
